@@ -2,6 +2,7 @@ import Lemmas.EvalFull
 import Lemmas.EvalBound
 import Lemmas.EvalVars
 import Lemmas.EvalFixedTree
+import Lemmas.Fixed64
 import Generated.Facts
 /-! # C09 — expression evaluation follows operator precedence and never crashes
 
@@ -552,6 +553,169 @@ theorem fixed_operators_are_f64 (c : Cfg) (a b : Int) :
   · simp [binary, symBytes, String.utf8EncodeChar, opGe, withFallback, fixedFrom]
   · simp [binary, symBytes, String.utf8EncodeChar, opEq, withFallback, fixedFrom]
   · simp [binary, symBytes, String.utf8EncodeChar, opNe, withFallback, fixedFrom]
+
+/-- clause "division by zero yields zero or an error as configured", as a theorem about the concrete `/` and `%` of
+    the table: whenever the right operand converts to the number zero (a literal `0`, `0.0`, `-0`, a false comparison,
+    a computed zero …) and the left operand is a number, the result is the number zero in the configuration
+    `divideByZeroReturnsZero = true` and an error otherwise — never a panic, never a quotient -/
+theorem div_by_zero_configured (c : Cfg) (l r : Val) (x : Int) (hl : fixedFrom c l = .ok x) (hr : fixedFrom c r = .ok 0) :
+    binary c (symBytes "/") l r = (if c.zero then .ok (.num 0) else .err) ∧
+    binary c (symBytes "%") l r = (if c.zero then .ok (.num 0) else .err) := by
+  constructor
+  · simp [binary, symBytes, String.utf8EncodeChar, opDiv, bothNum, hl, hr]
+  · simp [binary, symBytes, String.utf8EncodeChar, opMod, bothNum, hl, hr]
+
+/-- … and end to end: `Evaluate` of `l / r` (or `l % r`), for well-formed operand expressions in any layout whose
+    values are a number and a zero, is zero or an error as configured -/
+theorem div_by_zero_render (k : Nat) (z : Bool) (c : Cfg) (hk : cfg? k z = some c) (fns : List Bytes)
+    (resolve : Option (Bytes → Bytes)) (o : Op) (l r : X) (ho : o.sym = symBytes "/" ∨ o.sym = symBytes "%")
+    (hw : (X.bin o l r).WF stdOps fns lpOp.prec) (he : (X.bin o l r).Ev) (har : (X.bin o l r).Ar)
+    (lv rv : Val) (x : Int) (hlv : l.val c = .ok lv) (hrv : r.val c = .ok rv) (hl : fixedFrom c lv = .ok x)
+    (hr : fixedFrom c rv = .ok 0) (ws : Nat → Bytes) (hws : ∀ k, Blank (ws k)) :
+    EvalFixed.evaluate c stdOps fns resolve (((X.bin o l r).render lpOp rpOp ws).length + 1)
+      ((X.bin o l r).render lpOp rpOp ws) = (if z then .ok (.num 0) else .err) := by
+  rw [fixed_value_render_driver k z c hk fns resolve _ hw he har ws hws]
+  have hz : c.zero = z := by
+    unfold cfg? at hk
+    cases hp : Fixed.places? k <;> cases hm : Fixed.mult? k <;> simp [hp, hm] at hk
+    subst hk; rfl
+  have h := div_by_zero_configured c lv rv x hl hr
+  simp only [X.val, hlv, hrv, VR.bind]
+  rcases ho with ho | ho <;> rw [ho]
+  · rw [h.1, hz]
+  · rw [h.2, hz]
+
+/-- clause "a sign or negation written before an operand applies to that operand only", values: on a literal that
+    `FromString` reads as `raw`, `-` yields the `int64` negation, `+` the number itself, `!` whether it is zero; on
+    a text that is not a number they are errors -/
+theorem sign_on_literal (c : Cfg) (x : Bytes) (raw : Int) (h : FixedText.fromStr64 c.places c.mult x = .ok raw) :
+    unary c (symBytes "-") (.str x) = .ok (.num (Fixed.F64.negI raw)) ∧
+    unary c (symBytes "+") (.str x) = .ok (.num raw) ∧
+    unary c (symBytes "!") (.str x) = .ok (.bool (raw == 0)) := by
+  refine ⟨?_, ?_, ?_⟩
+  · simp [unary, symBytes, String.utf8EncodeChar, opNeg, fixedFrom, h]
+  · simp [unary, symBytes, String.utf8EncodeChar, opPlus, fixedFrom, h]
+  · simp [unary, symBytes, String.utf8EncodeChar, opNot, fixedFrom, h]
+
+/-- … end to end: `a o u b` for literals `a`, `b`, a binary operator `o` and a sign `u` of the table evaluates to
+    `o` applied to the value of `a` and the SIGNED value of `b` (the sign does not reach `a`), and `u a o b` to `o`
+    applied to the signed value of `a` and the value of `b`, in every layout -/
+theorem sign_applies_to_operand_value (k : Nat) (z : Bool) (c : Cfg) (hk : cfg? k z = some c) (fns : List Bytes)
+    (resolve : Option (Bytes → Bytes)) (a b : Bytes) (o u : Op)
+    (hw1 : (X.bin o (.atom none a) (.atom (some u) b)).WF stdOps fns lpOp.prec)
+    (hw2 : (X.bin o (.atom (some u) a) (.atom none b)).WF stdOps fns lpOp.prec)
+    (hea : (44 : Nat) ∉ a ∧ (36 : Nat) ∉ a) (heb : (44 : Nat) ∉ b ∧ (36 : Nat) ∉ b) (hob : o.bin = true)
+    (ws : Nat → Bytes) (hws : ∀ k, Blank (ws k)) :
+    EvalFixed.evaluate c stdOps fns resolve (((X.bin o (.atom none a) (.atom (some u) b)).render lpOp rpOp ws).length + 1)
+        ((X.bin o (.atom none a) (.atom (some u) b)).render lpOp rpOp ws) =
+      (unary c u.sym (.str b)).bind (fun vb => binary c o.sym (.str a) vb) ∧
+    EvalFixed.evaluate c stdOps fns resolve (((X.bin o (.atom (some u) a) (.atom none b)).render lpOp rpOp ws).length + 1)
+        ((X.bin o (.atom (some u) a) (.atom none b)).render lpOp rpOp ws) =
+      (unary c u.sym (.str a)).bind (fun va => binary c o.sym va (.str b)) := by
+  have hu : u.un = true := by
+    simp only [X.WF] at hw1
+    exact (hw1.2.2.2.2.2.1.1 u rfl).2
+  constructor
+  · rw [fixed_value_render_driver k z c hk fns resolve _ hw1 ⟨hob, hea, heb⟩ ⟨trivial, trivial⟩ ws hws]
+    simp [X.val, EvalFixed.applyUn, hu, VR.bind]
+  · rw [fixed_value_render_driver k z c hk fns resolve _ hw2 ⟨hob, hea, heb⟩ ⟨trivial, trivial⟩ ws hws]
+    simp [X.val, EvalFixed.applyUn, hu, VR.bind]
+
+/-- a comparison or logical result used as a number is the NUMBER one of the configuration (`10^places` raw), e.g.
+    `(a < b) + x` adds one whole unit -/
+theorem bool_counts_as_one (c : Cfg) (b : Bool) (x : Int) :
+    binary c (symBytes "+") (.bool b) (.num x) = .ok (.num (Fixed.F64.add (if b then Fixed.F64.fromInt c.mult 1 else 0) x)) ∧
+    binary c (symBytes "*") (.bool b) (.num x) =
+      .ok (.num (Fixed.F64.mul c.mult (if b then Fixed.F64.fromInt c.mult 1 else 0) x)) := by
+  constructor
+  · simp [binary, symBytes, String.utf8EncodeChar, opAdd, withFallback, fixedFrom]
+  · simp [binary, symBytes, String.utf8EncodeChar, opMul, bothNum, fixedFrom]
+
+/-- the string fall-backs: when an operand is not a number, `+` concatenates the `%v` texts and the comparisons
+    compare them byte-wise (`- * / %` are errors) -/
+theorem string_fallbacks (c : Cfg) (a : Bytes) (r : Val) (ha : FixedText.fromStr64 c.places c.mult a = .err) :
+    binary c (symBytes "+") (.str a) r = .ok (.str (a ++ fmtV c r)) ∧
+    binary c (symBytes "==") (.str a) r = .ok (.bool (a == fmtV c r)) ∧
+    binary c (symBytes "<") (.str a) r = .ok (.bool (strLt a (fmtV c r))) ∧
+    binary c (symBytes "-") (.str a) r = .err ∧ binary c (symBytes "*") (.str a) r = .err ∧
+    binary c (symBytes "/") (.str a) r = .err ∧ binary c (symBytes "%") (.str a) r = .err := by
+  refine ⟨?_, ?_, ?_, ?_, ?_, ?_, ?_⟩ <;>
+    simp [binary, symBytes, String.utf8EncodeChar, opAdd, opEq, opLt, opSub, opMul, opDiv, opMod, withFallback, bothNum,
+      fixedFrom, ha, fmtV]
+
+/-- the standard functions whose value is exact fixed-point arithmetic ARE the `f64` methods of `Model/Fixed.lean`
+    (C03) on the converted argument values: abs, ceil, round; floor = trunc, one unit lower when trunc is above the
+    value; max / min fold `Max` / `Min` from the smallest / largest raw value; `if` takes its second argument for a
+    non-zero condition and the third for zero -/
+theorem fixed_functions_are_f64 (c : Cfg) (x y : Int) (a b : VR Val) :
+    callV c (symBytes "abs") [.ok (.num x)] = .ok (.num (Fixed.F64.abs x)) ∧
+    callV c (symBytes "ceil") [.ok (.num x)] = .ok (.num (Fixed.F64.ceil c.mult x)) ∧
+    callV c (symBytes "round") [.ok (.num x)] = .ok (.num (Fixed.F64.round c.mult x)) ∧
+    callV c (symBytes "floor") [.ok (.num x)] = .ok (.num (if Fixed.F64.trunc c.mult x > x
+        then Fixed.F64.sub (Fixed.F64.trunc c.mult x) (Fixed.F64.fromInt c.mult 1) else Fixed.F64.trunc c.mult x)) ∧
+    callV c (symBytes "max") [.ok (.num x), .ok (.num y)] =
+      .ok (.num (Fixed.F64.max (Fixed.F64.max Fixed.F64.minRaw x) y)) ∧
+    callV c (symBytes "min") [.ok (.num x), .ok (.num y)] =
+      .ok (.num (Fixed.F64.min (Fixed.F64.min Fixed.F64.maxRaw x) y)) ∧
+    callV c (symBytes "if") [.ok (.num x), a, b] = (if x = 0 then b else a) := by
+  refine ⟨?_, ?_, ?_, ?_, ?_, ?_, ?_⟩ <;>
+    simp [callV, symBytes, String.utf8EncodeChar, one, foldV, ifV, VR.bind, fixedFrom, floorV]
+
+/-- `floor` is the mathematical floor (composition with C03's `trunc_eq`): for a representable value that is at
+    least one unit above the smallest one, the result is `mult · ⌊x / mult⌋`, the largest whole number not above it -/
+theorem fixed_floor_spec (c : Cfg) (hm : Fixed.Mult c.mult) (x : Int) (hx : Fixed.fits64 x)
+    (hlow : -9223372036854775808 + c.mult ≤ x) : floorV c x = c.mult * (x / c.mult) := by
+  have hpos := hm.pos
+  obtain ⟨p, hp, hpm⟩ := hm
+  have hb := Fixed.cfg_facts p hp
+  rw [hpm] at hb
+  have hone : Fixed.F64.fromInt c.mult 1 = c.mult := by
+    unfold Fixed.F64.fromInt Fixed.F64.mulI
+    have h1 : Fixed.wrap64 1 = 1 := by decide
+    rw [h1, Int.one_mul]
+    exact Fixed.wrap64_of_fits (by unfold Fixed.fits64; omega)
+  unfold floorV
+  simp only [hone]
+  rw [Fixed.F64.trunc_eq ⟨p, hp, hpm⟩ hx]
+  unfold Fixed.Spec.fxTrunc
+  have h1 : x / c.mult * c.mult ≤ x := Int.ediv_mul_le x (by omega)
+  have h2 : x < (x / c.mult + 1) * c.mult := Int.lt_ediv_add_one_mul_self x hpos
+  rw [Int.tdiv_eq_ediv]
+  by_cases hcase : 0 ≤ x ∨ c.mult ∣ x
+  · simp only [hcase, if_true, Int.add_zero]
+    have : ¬ (x / c.mult * c.mult > x) := by omega
+    simp only [this, if_false]
+    exact Int.mul_comm _ _
+  · have hs : c.mult.sign = 1 := Int.sign_eq_one_of_pos hpos
+    simp only [hcase, if_false, hs]
+    have : (x / c.mult + 1) * c.mult > x := h2
+    simp only [this, if_true]
+    unfold Fixed.F64.sub
+    have e : (x / c.mult + 1) * c.mult - c.mult = c.mult * (x / c.mult) := by ring
+    rw [e]
+    apply Fixed.wrap64_of_fits
+    unfold Fixed.fits64 at hx ⊢
+    have e2 : c.mult * (x / c.mult) = x / c.mult * c.mult := Int.mul_comm _ _
+    have h3 : (x / c.mult + 1) * c.mult = x / c.mult * c.mult + c.mult := by ring
+    omega
+
+/-- the value of a well-formed expression is a value, an error, or outside the model — never a Go panic (no stack
+    index out of range, no integer division by zero: `/` and `%` test their divisor first) -/
+theorem fixed_value_no_panic (k : Nat) (z : Bool) (c : Cfg) (hk : cfg? k z = some c) (fns : List Bytes)
+    (resolve : Option (Bytes → Bytes)) (e : X) (hw : e.WF stdOps fns lpOp.prec) (he : e.Ev) (har : e.Ar)
+    (ws : Nat → Bytes) (hws : ∀ k, Blank (ws k)) :
+    EvalFixed.evaluate c stdOps fns resolve ((e.render lpOp rpOp ws).length + 1) (e.render lpOp rpOp ws) ≠ .panic := by
+  rw [fixed_value_render_driver k z c hk fns resolve e hw he har ws hws]
+  exact X.val_ne_panic c e
+
+/-- still open for the fixed evaluator's VALUES: variables (`$name`) — the structure theorems `evaluate_render` cover
+    their substitution, the value theorem is stated for closed expressions; robustness of `EvalFixed.evaluate` on
+    EVERY byte list (proved for the symbolic evaluation, `evaluate_no_panic`; here only on well-formed input);
+    and everything that goes through float64 (exponent literals, `^`, sqrt, cbrt, exp, exp2, log, log10, log1p, and
+    the float evaluators altogether), which stays tied by the `val` stream only -/
+def fixed_value_Statement : Prop :=
+  ∀ (k : Nat) (z : Bool) (c : Cfg), cfg? k z = some c → ∀ (fns : List Bytes) (f : Bytes → Bytes) (s : Bytes),
+    (∀ n, (36 : Nat) ∉ f n) → EvalFixed.evaluate c stdOps fns (some f) (s.length + 1) s ≠ .panic
 
 end FixedValues
 
